@@ -278,6 +278,172 @@ func runC06(c *core.Ctx) {
 
 	checkCacheBranch(c)
 	checkProcessReport(c)
+	checkScopeBinding(c, states, table)
+}
+
+// checkScopeBinding: each Process<Scope> runs the subroutine of its own scope under its own scope constant; the action
+// names are the documented spellings; `restart;` / `error ...;` yield the RESTART / ERROR action and are admitted in
+// exactly the scopes whose transition table has that action.
+func checkScopeBinding(c *core.Ctx, states map[string]string, table map[string]map[string]string) {
+	prog := c.Prog
+	cp := prog.Pkg("interpreter/context")
+	if cp == nil {
+		c.MissingAnchor("sm.scope", "package interpreter/context")
+		return
+	}
+	scopeByVal := map[int64]string{}
+	for _, n := range cp.Types.Scope().Names() {
+		if k, ok := cp.Types.Scope().Lookup(n).(*types.Const); ok && core.NamedTypeName(k.Type()) == "Scope" {
+			v, _ := constant.Int64Val(k.Val())
+			scopeByVal[v] = n
+		}
+	}
+	all := []string{"ProcessRecv", "ProcessHash", "ProcessHit", "ProcessMiss", "ProcessPass", "ProcessFetch", "ProcessError", "ProcessDeliver", "ProcessLog"}
+	for _, name := range all {
+		fn := prog.SSAFunc("interpreter", "Interpreter."+name)
+		if fn == nil {
+			c.MissingAnchor("sm.scope", "Interpreter."+name)
+			continue
+		}
+		short := strings.TrimPrefix(name, "Process")
+		gotScope, gotSub := "", ""
+		for _, b := range fn.Blocks {
+			for _, in := range b.Instrs {
+				if cal := core.StaticCallee(in); cal != nil && cal.Name() == "SetScope" && gotScope == "" {
+					if v, ok := core.ConstIntValue(in.(ssa.CallInstruction).Common().Args[1]); ok {
+						gotScope = scopeByVal[v]
+					}
+				}
+				if lk, ok := in.(*ssa.Lookup); ok && gotSub == "" {
+					x := lk.X
+					if ld, ok := x.(*ssa.UnOp); ok && ld.Op == token.MUL {
+						x = ld.X
+					}
+					if f := core.FieldOf(x); f != nil && f.Name() == "Subroutines" {
+						if k, ok := lk.Index.(*ssa.Const); ok && k.Value != nil {
+							gotSub = constant.StringVal(k.Value)
+						}
+					}
+				}
+			}
+		}
+		if gotScope == short+"Scope" && gotSub == "vcl_"+strings.ToLower(short) {
+			c.Discharge("sm.scope", name, fn.Pos(), fmt.Sprintf("runs %s under %s", gotSub, gotScope))
+		} else {
+			c.Report("sm.scope", name, fn.Pos(), fmt.Sprintf("%s runs subroutine %q under scope %q (expected vcl_%s under %sScope): the lifecycle step executes another step's code or variables", name, gotSub, gotScope, strings.ToLower(short), short))
+		}
+	}
+	c.Floor("sm.scope", 9)
+
+	seenName := map[string]bool{}
+	for _, acts := range stateMachineSpec {
+		for n := range acts {
+			if v, ok := states[n]; ok && n != "NONE" && !seenName[n] {
+				seenName[n] = true
+				if v == strings.ToLower(n) {
+					c.Discharge("sm.names", n, token.NoPos, "action "+v)
+				} else {
+					c.ReportAt("sm.names", n, "interpreter/state.go", 0, fmt.Sprintf("State constant %s is spelled %q; return(%s) would not select it", n, v, strings.ToLower(n)))
+				}
+			}
+		}
+	}
+
+	// statements that force an action
+	pbs := prog.SSAFunc("interpreter", "Interpreter.ProcessBlockStatement")
+	if pbs == nil {
+		c.MissingAnchor("sm.stmt", "Interpreter.ProcessBlockStatement")
+		return
+	}
+	for _, want := range []struct{ node, state string }{{"RestartStatement", "RESTART"}, {"ErrorStatement", "ERROR"}} {
+		var arm *ssa.BasicBlock
+		for _, b := range pbs.Blocks {
+			for _, in := range b.Instrs {
+				ta, ok := in.(*ssa.TypeAssert)
+				if !ok || !ta.CommaOk || core.NamedTypeName(ta.AssertedType) != want.node {
+					continue
+				}
+				if iff, ok := b.Instrs[len(b.Instrs)-1].(*ssa.If); ok {
+					_ = iff
+					arm = b.Succs[0]
+				}
+			}
+		}
+		if arm == nil {
+			c.Report("sm.stmt", want.node+"|arm", pbs.Pos(), "ProcessBlockStatement has no arm for *ast."+want.node)
+			continue
+		}
+		// scopes admitted
+		var admitted []string
+		okRet, badRet := 0, ""
+		for _, b := range pbs.Blocks {
+			if !arm.Dominates(b) {
+				continue
+			}
+			for _, in := range b.Instrs {
+				if cal := core.StaticCallee(in); cal != nil && cal.Name() == "Is" && core.NamedTypeName(cal.Signature.Recv().Type()) == "Scope" && len(admitted) == 0 {
+					for _, v := range sliceLitConsts(in.(ssa.CallInstruction).Common().Args[1]) {
+						admitted = append(admitted, strings.TrimSuffix(scopeByVal[v], "Scope"))
+					}
+				}
+				if r, ok := in.(*ssa.Return); ok && len(r.Results) == 4 {
+					if !core.IsNilConst(r.Results[3]) {
+						continue
+					}
+					if k, ok := r.Results[1].(*ssa.Const); ok && k.Value != nil && constant.StringVal(k.Value) == states[want.state] {
+						okRet++
+					} else {
+						badRet = prog.Loc(r.Pos())
+					}
+				}
+			}
+		}
+		if okRet > 0 && badRet == "" {
+			c.Discharge("sm.stmt", want.node+"|action", arm.Instrs[0].Pos(), "yields "+want.state)
+		} else {
+			c.Report("sm.stmt", want.node+"|action", arm.Instrs[0].Pos(), fmt.Sprintf("the %s arm of ProcessBlockStatement does not return the %s action on success (%s)", want.node, want.state, badRet))
+		}
+		var wantScopes []string
+		for sc, acts := range table {
+			if acts[want.state] != "" {
+				wantScopes = append(wantScopes, strings.TrimPrefix(sc, "Process"))
+			}
+		}
+		sort.Strings(wantScopes)
+		sort.Strings(admitted)
+		if strings.Join(wantScopes, ",") == strings.Join(admitted, ",") {
+			c.Discharge("sm.stmt", want.node+"|scopes", arm.Instrs[0].Pos(), "admitted in "+strings.Join(admitted, ","))
+		} else {
+			c.Report("sm.stmt", want.node+"|scopes", arm.Instrs[0].Pos(), fmt.Sprintf("the %s statement is admitted in scopes {%s} but the lifecycle functions handle the %s action in {%s}: in the difference the statement is either rejected although Fastly allows it or falls off the state machine", strings.TrimSuffix(want.node, "Statement"), strings.Join(admitted, ","), want.state, strings.Join(wantScopes, ",")))
+		}
+	}
+}
+
+// sliceLitConsts: the integer constants stored into a variadic argument slice built at the call site.
+func sliceLitConsts(v ssa.Value) []int64 {
+	sl, ok := v.(*ssa.Slice)
+	if !ok {
+		return nil
+	}
+	al, ok := sl.X.(*ssa.Alloc)
+	if !ok || al.Referrers() == nil {
+		return nil
+	}
+	var out []int64
+	for _, r := range *al.Referrers() {
+		ia, ok := r.(*ssa.IndexAddr)
+		if !ok || ia.Referrers() == nil {
+			continue
+		}
+		for _, rr := range *ia.Referrers() {
+			if st, ok := rr.(*ssa.Store); ok {
+				if k, ok := core.ConstIntValue(st.Val); ok {
+					out = append(out, k)
+				}
+			}
+		}
+	}
+	return out
 }
 
 func retLabel(fn *ssa.Function, r *ssa.Return) string {
